@@ -178,7 +178,7 @@ def make_case(name, cfg, r, tier, with_history, export=True):
         lines.append("dump tsmleaves bs=%d mode=%d" % (bs, mode))      # what a target/source tree stores on each side for the same particles
     moves_per_cycle = []
     if nrhs > 0:
-        lines += ["mark exec1", "fexec", "digest", "dump rhs"] + (["export rhs", "export data"] if export else [])
+        lines += ["mark exec1", "fexec", "digest", "dump rhs", "bytecopy"] + (["export rhs", "export data"] if export else [])
     if with_history:
         cur = [list(p) for p in parts]
         for cyc in range(r.choice([1, 2, 3])):
